@@ -5,6 +5,7 @@ import (
 	"go/constant"
 	"go/token"
 	"go/types"
+	"os"
 	"sort"
 
 	"golang.org/x/tools/go/ssa"
@@ -720,7 +721,11 @@ func (x *Exec) overflow(in *ssa.BinOp, r Term, st *State) {
 		return
 	}
 	if x.fc == nil || x.fc.Opts["overflow"] == "" {
-		return
+		// exploration mode (GOVC_OVERFLOW=mul): multiplications everywhere - where realistic
+		// overflows live (limit*2, len*8/10); not part of any registered check
+		if !(os.Getenv("GOVC_OVERFLOW") == "mul" && in.Op == token.MUL) {
+			return
+		}
 	}
 	if _, ok := in.X.(*ssa.Const); ok {
 		if _, ok2 := in.Y.(*ssa.Const); ok2 {
